@@ -22,6 +22,9 @@ import CijProofs.Lemmas.Permutation
 import CijProofs.Lemmas.Degenerate
 import CijProofs.Lemmas.DegenerateBasis
 import Mathlib.Analysis.Real.Sqrt
+import CijProofs.Lemmas.ShearSource
+import CijProofs.Lemmas.NonShearSource
+import Generated.FullModulusSpec
 
 namespace Cij.C04
 open Cij Cij.Shear Cij.Tasks
@@ -628,5 +631,36 @@ theorem tasks_model_is_source {α : Type} [Add α] [Div α] (strain : SField α)
 
 /-- non-vacuity: for `c12` the columns are 0 and 1 -/
 example : colOf (keyOfVoigt (1, 2)) ("i", 1) = 0 ∧ colOf (keyOfVoigt (1, 2)) ("k", 1) = 1 := by decide
+
+/-! #### ties shared with other properties
+
+The statement of this property also rests on code whose translation is owned by another property's file; the theorems are restated
+here so that this property's obligations are re-checked against those files too (a change there breaks THIS check's proof as well). -/
+
+/-- the arithmetic of the shear solver in `shear.py` as translated on this run: the target formula of the model is the translated one -/
+theorem c04_shear_target_is_source {α : Type} [Add α] [Sub α] [Mul α] [Div α] [NatCast α]
+    (key : Cij.Modulus) (e : Cij.Shear.Mat3 α) (eRot eOrig : α) :
+    Cij.Shear.targetModulus key e eRot eOrig =
+      Cij.ShExpr.eval (Cij.ShExpr.envOf eRot (e (Cij.Shear.idx key.i.i) (Cij.Shear.idx key.i.j)) (e (Cij.Shear.idx key.j.i) (Cij.Shear.idx key.j.j))
+        eRot eOrig ((key.multiplicity : Nat) : α)) Generated.shearTarget :=
+  Cij.ShExpr.target_is_source key e eRot eOrig
+
+/-- `nonshear.py` as translated on this run: the model's isothermal and adiabatic values of both non-shear classes are the
+translated bodies (zero-point + thermal; isothermal + gap), for every scalar type -/
+theorem c04_nonshear_is_source {α : Type} [Cij.NonShear.Scalar α] [Add α] [Sub α] [Mul α] [Div α] [Neg α]
+    (c : Cij.NonShear.Consts α) (w : List α) (T P cv : α) (s : Cij.NonShear.VolSlice α) (a b : α) :
+    Cij.NonShear.valueAdiabaticLongAt c w T cv s =
+      Cij.NSExpr.evalBody (Cij.NSExpr.envAt c w T P cv s (Cij.NonShear.mgLong s) a b (Cij.NonShear.valueIsothermalLongAt c w T s)
+        (Cij.NonShear.isoToAdiaAt c.k c.hdk c.na T s.V cv (Cij.NonShear.mgLong s) s.freq w)) Generated.nsAdiaLong ∧
+    Cij.NonShear.valueAdiabaticOffAt c w T P cv s =
+      Cij.NSExpr.evalBody (Cij.NSExpr.envAt c w T P cv s (Cij.NonShear.mgOff s) a b (Cij.NonShear.valueIsothermalOffAt c w T P s)
+        (Cij.NonShear.isoToAdiaAt c.k c.hdk c.na T s.V cv (Cij.NonShear.mgOff s) s.freq w)) Generated.nsAdiaOff :=
+  ⟨Cij.NSExpr.valueAdiabaticLong_is_source c w T P cv s a b, Cij.NSExpr.valueAdiabaticOff_is_source c w T P cv s a b⟩
+
+/-- `full_modulus.py` / `_calculate_pressure_static` as translated on this run: default fit orders, degree offset, and the bodies of
+`fit_modulus`, `get_axial_strains`, `get_static_modulus`, `modulus_adiabatic`, `modulus_isothermal` are the ones the model implements -/
+theorem c04_full_modulus_is_source :
+    Generated.fitModulusDegOffset = 1 ∧ Generated.fullModulusBodiesCanonical = true ∧
+    Generated.fitModulusDefaultOrder = 2 ∧ Generated.staticPressureDefaultOrder = 3 := by decide
 
 end Cij.C04
